@@ -268,6 +268,8 @@ enum ROp {
     FillConsume(usize),
     /// seek to (block index, offset within block); block index == n_blocks means end of stream
     Seek(usize, usize),
+    /// seek by uncompressed offset through a gzi index built by the harness
+    SeekIndex(u64),
     Finish,
 }
 
@@ -282,7 +284,21 @@ enum Corrupt {
     IoErrorIn(usize),
 }
 
+fn gzi_of(offs: &[usize], payload_sizes: &[usize]) -> bgzf::gzi::Index {
+    // gzi definition: one (compressed offset, uncompressed offset) entry per block after the first
+    let mut v = Vec::new();
+    let mut u = 0u64;
+    for i in 0..offs.len() {
+        if i > 0 {
+            v.push((offs[i] as u64, u));
+        }
+        u += payload_sizes[i] as u64;
+    }
+    bgzf::gzi::Index::from(v)
+}
+
 struct RFile {
+    sizes: Vec<usize>,
     name: String,
     bytes: Arc<Vec<u8>>,
     offs: Vec<usize>,
@@ -354,6 +370,7 @@ fn build_file(blocks: &[usize], eof: bool, corrupt: Corrupt) -> RFile {
         }
     }
     RFile {
+        sizes: blocks.to_vec(),
         name: format!("blocks={blocks:?} eof={eof} corrupt={corrupt:?}"),
         bytes: Arc::new(bytes),
         offs,
@@ -418,6 +435,10 @@ fn run_script_sync(file: &RFile, script: &[ROp]) -> Vec<RObs> {
                 Ok(_) => RObs::Bytes(Vec::new(), u64::from(r.virtual_position())),
                 Err(e) => RObs::Err(e.kind()),
             },
+            ROp::SeekIndex(off) => match r.seek_with_index(&gzi_of(&file.offs, &file.sizes), io::SeekFrom::Start(off)) {
+                Ok(_) => RObs::Bytes(Vec::new(), u64::from(r.virtual_position())),
+                Err(e) => RObs::Err(e.kind()),
+            },
             ROp::Finish => RObs::Finished(true),
         };
         let stop = matches!(o, RObs::Err(_));
@@ -472,6 +493,7 @@ fn reader_body(ch: &Chooser, cases: &[RCase], pools: &[usize], cost: CostModel, 
     let offs = case.file.offs.clone();
     let flen = case.file.bytes.len();
     let fail_at = case.file.io_error_at;
+    let gzi = gzi_of(&case.file.offs, &case.file.sizes);
     let caught = vmc::catch(|| vrt::run(ch, RtConfig::new(pool, cost), move || {
         let vp = |b: usize, o: usize| {
             let c = if b < offs.len() { offs[b] } else { flen };
@@ -517,6 +539,10 @@ fn reader_body(ch: &Chooser, cases: &[RCase], pools: &[usize], cost: CostModel, 
                     Err(e) => RObs::Err(e.kind()),
                 },
                 ROp::Seek(b, o) => match r.seek_to_virtual_position(vp(b, o)) {
+                    Ok(_) => RObs::Bytes(Vec::new(), u64::from(r.virtual_position())),
+                    Err(e) => RObs::Err(e.kind()),
+                },
+                ROp::SeekIndex(off) => match r.seek_with_index(&gzi, io::SeekFrom::Start(off)) {
                     Ok(_) => RObs::Bytes(Vec::new(), u64::from(r.virtual_position())),
                     Err(e) => RObs::Err(e.kind()),
                 },
@@ -605,7 +631,7 @@ fn reader_body(ch: &Chooser, cases: &[RCase], pools: &[usize], cost: CostModel, 
                 // did not deliver
                 let later_err = obs[i + 1..].iter().any(|x| matches!(x, RObs::Err(_) | RObs::Finished(false)))
                     || matches!(finish_result, Some(Err(_)));
-                if case.script[i] == ROp::ReadToEnd && !case.file.payload.starts_with(ob_) && !case.script[..i].iter().any(|o| matches!(o, ROp::Seek(..) | ROp::Read(_) | ROp::ReadExact(_) | ROp::FillConsume(_))) {
+                if case.script[i] == ROp::ReadToEnd && !case.file.payload.starts_with(ob_) && !case.script[..i].iter().any(|o| matches!(o, ROp::Seek(..) | ROp::SeekIndex(_) | ROp::Read(_) | ROp::ReadExact(_) | ROp::FillConsume(_))) {
                     return Err(Violation::new(
                         format!("reader op={opname} corrupt={corrupt} symptom=bytes-not-a-prefix-of-valid-data"),
                         format!("{} schedule: {}", describe(), info.schedule_string()),
@@ -741,6 +767,9 @@ fn main() {
         cases.push(make_case(&[3, 5, 2], true, Corrupt::None, vec![Read(2), Seek(4, 0), Read(4), Seek(1, 1), Read(2)]));
         cases.push(make_case(&[3, 5], false, Corrupt::None, vec![ReadToEnd, Seek(2, 0), Read(4), Seek(0, 2), ReadToEnd]));
         cases.push(make_case(&[3, 5, 2], true, Corrupt::None, vec![Read(2), Seek(3, 0), Read(4)]));
+        // seeks by uncompressed offset through a gzi: mid-block, first byte of a block, end, back
+        cases.push(make_case(&[3, 5, 2], true, Corrupt::None, vec![Read(1), SeekIndex(4), Read(2), SeekIndex(3), Read(9), SeekIndex(10), Read(1), SeekIndex(0), ReadToEnd]));
+        cases.push(make_case(&[3, 0, 4], false, Corrupt::None, vec![SeekIndex(3), Read(2), SeekIndex(7), Read(1), SeekIndex(2), ReadToEnd]));
         let n_plain = cases.len();
         for c in [Corrupt::Crc(1), Corrupt::Deflate(1), Corrupt::Magic(1), Corrupt::Crc(0), Corrupt::Magic(2)] {
             cases.push(make_case(&[3, 5, 2], true, c, vec![ReadToEnd]));
